@@ -451,6 +451,56 @@ def check_head_reaches_herd(ctx, iso, key, value, case):
 
 
 @st.composite
+def multi_override_case(draw):
+    """two to four different numeric overrides in one scenario (in a drawn order), on a drawn option dictionary"""
+    keys = draw(st.lists(st.sampled_from(OVERRIDES), min_size=2, max_size=4, unique=True))
+    vals = {}
+    for key in keys:
+        if key == "MINIMUM_PERCENT_FED_BEFORE_NONHUMAN_CONSUMPTION_ALLOWED":
+            vals[key] = draw(st.sampled_from([0.0, 10.0, 100.0]) | st.floats(0, 100))
+        elif key == "RATIO_STOCKS_UNTOUCHED":
+            vals[key] = draw(st.sampled_from([0.0, 1.0]) | st.floats(0, 1))
+        elif key == "kg_meat_per_large_animal":
+            vals[key] = draw(st.floats(0, 600))
+        else:
+            vals[key] = draw(st.sampled_from([0.5, 2.0, 0.0]) | st.floats(0, 10))
+    scale = draw(st.sampled_from(["country", "country", "global"]))
+    return dict(kind="overrides", iso3=draw(gen.country()) if scale == "country" else "WOR", options=draw(gen.options(scale)),
+                keys=keys, values=[vals[k] for k in keys])
+
+
+def check_overrides_together(ctx, c):
+    """each override changes exactly the input it names - also when several are given at once"""
+    iso, o = c["iso3"], c["options"]
+    try:
+        base_c, base_tc, _ = dispatch(iso, o)
+    except (AssertionError, SystemExit):
+        ctx.abort("base_rejected")
+        return
+    o2 = dict(o)
+    for k, v in zip(c["keys"], c["values"]):
+        o2[k] = v
+    try:
+        c2, tc2, _ = dispatch(iso, o2)
+    except (AssertionError, SystemExit):
+        ctx.abort("overrides_rejected_together")       # e.g. a share to use below the share left untouched
+        return
+    bf, af = RO.flatten(base_c, base_tc), RO.flatten(c2, tc2)
+    exp = {}
+    for k, v in zip(c["keys"], c["values"]):
+        exp.update(expected_override_effect(k, v, bf))
+    extra = sorted(set(RO.diff_keys(bf, af)) - set(exp))
+    if extra:
+        ctx.fail("override-changes-something-it-does-not-name", "%r together also changed %s" % (list(zip(c["keys"], c["values"])), extra[:6]), c)
+    for k, v in exp.items():
+        if k not in af or not RO.close(af[k], v, 1e-12):
+            ctx.fail("override-not-applied-to-the-input-it-names",
+                     "%r together: %s is %r, expected %r" % (list(zip(c["keys"], c["values"])), k, af.get(k), v), c)
+    ctx.event("overrides_%d_together" % len(c["keys"]))
+    ctx.nontrivial_case(c)
+
+
+@st.composite
 def multi_head_case(draw):
     k = draw(st.integers(2, 5))
     sps = draw(st.lists(st.sampled_from(herd.SPECIES), min_size=k, max_size=k, unique=True))     # in the order the user writes them
@@ -544,10 +594,39 @@ def shard(ctx):
         except Violation as viol:
             ctx.record_violation(viol)
 
+    # ... and ONLY those: for the three rule countries every shut-off schedule under every seaweed-bearing scenario must yield the
+    # constants documented for the schedule that was asked for, unless the (scenario, schedule) pair is one a rule lists (then: immediate)
+    listed = {(iso, scen, sh) for iso in ("SLV", "ALB") for scen in ("all_resilient_foods", "seaweed")
+              for sh in ("continued", "long_delayed_shutoff", "short_delayed_shutoff")}
+    grid = [(iso, scen, sh) for iso in ("SLV", "ALB", "ECU") for scen in ("seaweed", "all_resilient_foods", "all_resilient_foods_and_more_area")
+            for sh in sorted(RO.DISPATCH["shutoff"])]
+    for i, (iso, scen, sh) in enumerate(grid):
+        if i % ctx.nshards != ctx.shard:
+            continue
+        ctx.count()
+        o = dict(model.BASELINE_COUNTRY, scenario=scen, shutoff=sh, cull="do_eat_culled")
+        case = dict(kind="rewrite_grid", iso3=iso, options=o)
+        try:
+            c1, tc1, _ = dispatch(iso, o)
+            want = "immediate" if (iso, scen, sh) in listed else sh
+            spec = RO.SETTERS[RO.DISPATCH["shutoff"][want]]
+            flat = RO.flatten(c1, tc1)
+            row = model.country_row(iso, o)
+            for k, v in spec["values"].items():
+                exp = v(row, dict(c1)) if callable(v) else v
+                if k not in flat or not RO.close(flat[k], exp):
+                    ctx.fail("known-bad-rewrite-applied-outside-its-listed-combinations" if want == sh else "known-bad-rewrite-not-applied",
+                             "%s scenario=%s shutoff=%s: %s is %r, the schedule '%s' documents %r" % (iso, scen, sh, k, flat.get(k), want, exp), case)
+            ctx.event("rewrite_grid_" + ("listed" if want != sh else "unlisted"))
+            ctx.nontrivial_case(["rewrite_grid", iso, scen, sh])
+        except Violation as viol:
+            ctx.record_violation(viol)
+
     drive(ctx, bad_case(), lambda c: check_rejection(ctx, c["iso3"], c["options"], "%s %s=%r" % (c["how"], c["family"], c["options"].get(c["family"])), c),
           400 if thorough else 12, shrink=False, tag="bad")
     drive(ctx, override_case(), lambda c: check_override(ctx, c), 1500 if thorough else 30, shrink=False, tag="override")
     drive(ctx, multi_head_case(), lambda c: check_heads_reach_herd(ctx, c), 600 if thorough else 12, tag="heads")
+    drive(ctx, multi_override_case(), lambda c: check_overrides_together(ctx, c), 1500 if thorough else 25, tag="overrides")
 
     if thorough:
         # all ordered pairs of setters (finite, enumerated)
@@ -603,5 +682,19 @@ def replay(case, ctx):
         check_head_reaches_herd(ctx, case["iso3"], case["key"], case["value"], case)
     elif k == "heads":
         check_heads_reach_herd(ctx, case)
+    elif k == "overrides":
+        check_overrides_together(ctx, case)
+    elif k == "rewrite_grid":
+        c1, tc1, _ = dispatch(case["iso3"], copy.deepcopy(case["options"]))
+        o = case["options"]
+        listed = (case["iso3"] in ("SLV", "ALB") and o["scenario"] in ("all_resilient_foods", "seaweed")
+                  and o["shutoff"] in ("continued", "long_delayed_shutoff", "short_delayed_shutoff"))
+        want = "immediate" if listed else o["shutoff"]
+        spec, flat, row = RO.SETTERS[RO.DISPATCH["shutoff"][want]], RO.flatten(c1, tc1), model.country_row(case["iso3"], o)
+        for kk, v in spec["values"].items():
+            exp = v(row, dict(c1)) if callable(v) else v
+            if kk not in flat or not RO.close(flat[kk], exp):
+                ctx.fail("known-bad-rewrite-applied-outside-its-listed-combinations" if want == o["shutoff"] else "known-bad-rewrite-not-applied",
+                         "%s: %s is %r, documented %r" % (case["iso3"], kk, flat.get(kk), exp), case)
     else:
         raise RuntimeError(k)
